@@ -1,7 +1,7 @@
 /-
 Hub lemmas, part 8: who can be written to (for C03, output level).
 
-`Own b a`: every message written so far went to a connection whose session belongs to backend `b`
+`Own b h0 a`: every message written so far went to a connection whose session belongs to backend `b`
 (the `bk` tag of an `Out` is the backend of the session that owned the connection when the message
 was written; `none` for connections without a session).  The lemmas below show that each delivery
 primitive keeps `Own b` as long as the sessions it is pointed at belong to `b`.
@@ -13,25 +13,50 @@ namespace SigModel.Hub
 /-- Session `s`, if it exists, belongs to backend `b`. -/
 def BkOf (h : Hub) (s : Nat) (b : Nat) : Prop := ∀ x, h.sess s = some x → x.backend = b
 
-/-- Everything written so far went to sessions of backend `b` (or to connections without a session), and
-the sessions marked for closing after the step belong to `b`. -/
-structure Own (b : Nat) (a : Acc) : Prop where
+/-- Everything written so far went to sessions of backend `b` (or to connections without a session), the
+sessions marked for closing after the step belong to `b`, and the record of every session of another backend
+is still what it was in `h0` (the hub before the step). -/
+structure Own (b : Nat) (h0 : Hub) (a : Acc) : Prop where
   outs : ∀ o, o ∈ a.outs → ∀ b', o.bk = some b' → b' = b
   closes : ∀ s, s ∈ a.closes → BkOf a.h s b
+  frame : ∀ t x, h0.sess t = some x → x.backend ≠ b → a.h.sess t = some x
 
-/-- Going from `h` to `h'`, a session of `b` stays one (or goes away). -/
-def BkKeep (b : Nat) (h h' : Hub) : Prop := ∀ t, BkOf h t b → BkOf h' t b
+/-- Going from `h` to `h'`, a session of `b` stays one (or goes away), and the records of the sessions of other
+backends do not change. -/
+structure BkKeep (b : Nat) (h h' : Hub) : Prop where
+  keep : ∀ t, BkOf h t b → BkOf h' t b
+  frame : ∀ t x, h.sess t = some x → x.backend ≠ b → h'.sess t = some x
 
-theorem BkKeep.of_sess_eq {b : Nat} {h h' : Hub} (e : h'.sess = h.sess) : BkKeep b h h' := by
-  intro t hb x hx; rw [e] at hx; exact hb x hx
+theorem BkKeep.of_sess_eq {b : Nat} {h h' : Hub} (e : h'.sess = h.sess) : BkKeep b h h' :=
+  ⟨fun t hb x hx => by rw [e] at hx; exact hb x hx, fun t x hx _ => by rw [e]; exact hx⟩
+
+theorem BkKeep.refl {b : Nat} (h : Hub) : BkKeep b h h := ⟨fun _ hb => hb, fun _ _ hx _ => hx⟩
+
+theorem BkKeep.trans {b : Nat} {h1 h2 h3 : Hub} (a : BkKeep b h1 h2) (c : BkKeep b h2 h3) : BkKeep b h1 h3 :=
+  ⟨fun t hb => c.keep t (a.keep t hb), fun t x hx hn => c.frame t x (a.frame t x hx hn) hn⟩
+
+/-- Only the record of session `s` — a session of `b`, before and after — differs. -/
+theorem BkKeep.of_single {b : Nat} {h h' : Hub} (s : Nat) (hother : ∀ t, t ≠ s → h'.sess t = h.sess t)
+    (hs : BkOf h s b) (hs' : BkOf h' s b) : BkKeep b h h' := by
+  refine ⟨?_, ?_⟩
+  · intro t hb x hx
+    by_cases e : t = s
+    · subst e; exact hs' x hx
+    · rw [hother t e] at hx; exact hb x hx
+  · intro t x hx hn
+    by_cases e : t = s
+    · subst e; exact absurd (hs x hx) hn
+    · rw [hother t e]; exact hx
+
+variable {h0 : Hub}
 
 /-- Only the hub changes, and sessions keep their backend. -/
-theorem Own.setH {b : Nat} {a : Acc} (o : Own b a) (h' : Hub) (hk : BkKeep b a.h h') : Own b { a with h := h' } :=
-  ⟨o.outs, fun s hs => hk s (o.closes s hs)⟩
+theorem Own.setH {b : Nat} {a : Acc} (o : Own b h0 a) (h' : Hub) (hk : BkKeep b a.h h') : Own b h0 { a with h := h' } :=
+  ⟨o.outs, fun s hs => hk.keep s (o.closes s hs), fun t x h1 h2 => hk.frame t x (o.frame t x h1 h2) h2⟩
 
-theorem Own.append {b : Nat} {a a' : Acc} (o : Own b a) (l : List Out) (h : a'.outs = a.outs ++ l)
-    (hl : ∀ x, x ∈ l → ∀ b', x.bk = some b' → b' = b) (hc : ∀ s, s ∈ a'.closes → BkOf a'.h s b) : Own b a' := by
-  refine ⟨?_, hc⟩
+theorem Own.append {b : Nat} {a a' : Acc} (o : Own b h0 a) (l : List Out) (h : a'.outs = a.outs ++ l) (hh : a'.h = a.h)
+    (hl : ∀ x, x ∈ l → ∀ b', x.bk = some b' → b' = b) (hc : ∀ s, s ∈ a'.closes → BkOf a'.h s b) : Own b h0 a' := by
+  refine ⟨?_, hc, by rw [hh]; exact o.frame⟩
   intro x hx; rw [h] at hx
   rcases List.mem_append.mp hx with h1 | h1
   · exact o.outs x h1
@@ -63,17 +88,16 @@ theorem target_bk {orph : List Nat} {h : Hub} (hi : InvX orph h) {s b : Nat} (hb
       · intro y hy; rw [hp] at hy; cases hy; rw [hpb]; exact hb x hx
     · exact hb
 
-theorem BkKeep.setSess {b : Nat} {h : Hub} {s : Nat} {x y : Sess} (hx : h.sess s = some x) (hy : y.backend = x.backend) :
-    BkKeep b h (setSess h s (some y)) := by
-  intro t hb z hz
-  simp only [SigModel.Hub.setSess] at hz
-  by_cases e : t = s
-  · subst e; simp at hz; subst hz; rw [hy]; exact hb x hx
-  · simp [e] at hz; exact hb z hz
+theorem BkKeep.setSess {b : Nat} {h : Hub} {s : Nat} {x y : Sess} (hx : h.sess s = some x) (hy : y.backend = x.backend)
+    (hxb : x.backend = b) : BkKeep b h (setSess h s (some y)) := by
+  refine BkKeep.of_single s ?_ ?_ ?_
+  · intro t e; simp [SigModel.Hub.setSess, e]
+  · intro z hz; rw [hx] at hz; cases hz; exact hxb
+  · intro z hz; simp [SigModel.Hub.setSess] at hz; subst hz; rw [hy]; exact hxb
 
 /-- `sendTo` writes to the target session only (and may mark it for closing). -/
-theorem sendTo_own {b : Nat} (a : Acc) (s : Nat) (m : Msg) (o : Own b a) (hb : BkOf a.h (target a.h s) b) :
-    Own b (sendTo a s m) := by
+theorem sendTo_own {b : Nat} (a : Acc) (s : Nat) (m : Msg) (o : Own b h0 a) (hb : BkOf a.h (target a.h s) b) :
+    Own b h0 (sendTo a s m) := by
   have hcore := sendTo_core a s m
   unfold sendTo at hcore ⊢
   simp only [] at hcore ⊢
@@ -86,7 +110,7 @@ theorem sendTo_own {b : Nat} (a : Acc) (s : Nat) (m : Msg) (o : Own b a) (hb : B
     generalize (filterMessage x m).fst = x1 at hf hcore ⊢
     generalize (filterMessage x m).snd = om at hcore ⊢
     have hb1 : x1.backend = b := by rw [(strip_fields hf).1]; exact hxb
-    have hk1 : BkKeep b a.h (setSess a.h (target a.h s) (some x1)) := BkKeep.setSess hx (strip_fields hf).1
+    have hk1 : BkKeep b a.h (setSess a.h (target a.h s) (some x1)) := BkKeep.setSess hx (strip_fields hf).1 hxb
     cases om with
     | none => exact o.setH _ hk1
     | some m1 =>
@@ -94,7 +118,7 @@ theorem sendTo_own {b : Nat} (a : Acc) (s : Nat) (m : Msg) (o : Own b a) (hb : B
       cases hc : x1.conn with
       | some c =>
         simp only [hc] at hcore ⊢
-        refine (o.setH _ hk1).append [⟨c, m1, some x1.backend⟩] rfl ?_ ?_
+        refine (o.setH _ hk1).append [⟨c, m1, some x1.backend⟩] rfl rfl ?_ ?_
         · intro y hy b' hb'
           simp only [List.mem_singleton] at hy
           subst hy
@@ -103,18 +127,43 @@ theorem sendTo_own {b : Nat} (a : Acc) (s : Nat) (m : Msg) (o : Own b a) (hb : B
         · intro t ht
           split at ht
           · rcases List.mem_append.mp ht with h1 | h1
-            · exact hk1 t (o.closes t h1)
+            · exact hk1.keep t (o.closes t h1)
             · simp only [List.mem_singleton] at h1; subst h1
               intro z hz; simp [SigModel.Hub.setSess] at hz; subst hz; exact hb1
-          · exact hk1 t (o.closes t ht)
+          · exact hk1.keep t (o.closes t ht)
       | none =>
         simp only [hc] at hcore ⊢
         split
         · exact o.setH _ hk1
-        · exact o.setH _ (BkKeep.setSess hx (by simp [(strip_fields hf).1]))
+        · exact o.setH _ (BkKeep.setSess hx (by simp [(strip_fields hf).1]) hxb)
 
-/-- The session written to when `l` is addressed belongs to `b`. -/
-def TBk (h : Hub) (l : Nat) (b : Nat) : Prop := BkOf h (target h l) b
+/-- `sendTo` changes the record of the target session only. -/
+theorem sendTo_keep {b : Nat} (a : Acc) (s : Nat) (m : Msg) (hb : BkOf a.h (target a.h s) b) : BkKeep b a.h (sendTo a s m).h := by
+  unfold sendTo
+  simp only []
+  cases hx : a.h.sess (target a.h s) with
+  | none => exact BkKeep.refl _
+  | some x =>
+    simp only []
+    have hxb := hb x hx
+    have hf := filterMessage_strip x m
+    generalize (filterMessage x m).fst = x1 at hf ⊢
+    generalize (filterMessage x m).snd = om
+    have hk1 : BkKeep b a.h (setSess a.h (target a.h s) (some x1)) := BkKeep.setSess hx (strip_fields hf).1 hxb
+    cases om with
+    | none => exact hk1
+    | some m1 =>
+      simp only []
+      cases hc : x1.conn with
+      | some c => exact hk1
+      | none =>
+        simp only []
+        split
+        · exact hk1
+        · exact BkKeep.setSess hx (by simp [(strip_fields hf).1]) hxb
+
+/-- Listener `l` and the session written to when `l` is addressed belong to `b`. -/
+def TBk (h : Hub) (l : Nat) (b : Nat) : Prop := BkOf h (target h l) b ∧ BkOf h l b
 
 theorem CoreEq.target_eq {h h' : Hub} (e : CoreEq h h') (l : Nat) : target h' l = target h l := by
   unfold target
@@ -123,22 +172,22 @@ theorem CoreEq.target_eq {h h' : Hub} (e : CoreEq h h') (l : Nat) : target h' l 
   · rw [hx, hy]; simp only [f.2.1, f.2.2.2.2.2.2.1]
 
 theorem CoreEq.tbk {h h' : Hub} (e : CoreEq h h') {l b : Nat} (hb : TBk h l b) : TBk h' l b := by
-  unfold TBk at *; rw [e.target_eq]; exact e.bkOf hb
+  unfold TBk at *; rw [e.target_eq]; exact ⟨e.bkOf hb.1, e.bkOf hb.2⟩
 
-theorem procClient_own {b : Nat} (a : Acc) (l : Nat) (am : AMsg) (o : Own b a) (hb : TBk a.h l b) :
-    Own b (procClient a l am) := by
+theorem procClient_own {b : Nat} (a : Acc) (l : Nat) (am : AMsg) (o : Own b h0 a) (hb : TBk a.h l b) :
+    Own b h0 (procClient a l am) := by
   unfold procClient
   split
   · exact o
   · rename_i x hx
     split
-    · exact o.setH _ (BkKeep.setSess hx rfl)
+    · exact o.setH _ (BkKeep.setSess hx rfl (hb.2 x hx))
     · split
-      · exact sendTo_own a l _ o hb
+      · exact sendTo_own a l _ o hb.1
       · exact o
 
-theorem foldl_procClient_own {b : Nat} (am : AMsg) : ∀ (ls : List Nat) (a : Acc), Own b a → (∀ l, l ∈ ls → TBk a.h l b) →
-    Own b (ls.foldl (fun a l => procClient a l am) a) := by
+theorem foldl_procClient_own {b : Nat} (am : AMsg) : ∀ (ls : List Nat) (a : Acc), Own b h0 a → (∀ l, l ∈ ls → TBk a.h l b) →
+    Own b h0 (ls.foldl (fun a l => procClient a l am) a) := by
   intro ls
   induction ls with
   | nil => intro a o _; exact o
@@ -154,33 +203,35 @@ write to their own connection. -/
 theorem InvG.roomL_tbk {R : Nat → Sess → String → Prop} {orph : List Nat} {h : Hub} (hi : InvG R orph h) {b : Nat} {r : String} {l : Nat}
     (hl : l ∈ h.roomL b r) : TBk h l b := by
   obtain ⟨x, hx, hb, _, hk⟩ := (hi.roomL_iff b r l).mp hl
+  have h1 : BkOf h l b := by intro y hy; rw [hx] at hy; cases hy; exact hb
   unfold TBk; rw [target_nonvirtual hx hk]
-  intro y hy; rw [hx] at hy; cases hy; exact hb
+  exact ⟨h1, h1⟩
 
 theorem InvG.userL_tbk {R : Nat → Sess → String → Prop} {orph : List Nat} {h : Hub} (hi : InvG R orph h) {b : Nat} {u : String} {l : Nat}
     (hl : l ∈ h.userL b u) : TBk h l b := by
   obtain ⟨x, hx, hb, _, _, hk⟩ := (hi.userL_iff b u l).mp hl
+  have h1 : BkOf h l b := by intro y hy; rw [hx] at hy; cases hy; exact hb
   unfold TBk; rw [target_nonvirtual hx hk]
-  intro y hy; rw [hx] at hy; cases hy; exact hb
+  exact ⟨h1, h1⟩
 
 theorem pubRoom_own {R : Nat → Sess → String → Prop} {orph : List Nat} {b : Nat} (a : Acc) (r : String) (am : AMsg)
-    (hi : InvG R orph a.h) (o : Own b a) : Own b (pubRoom a b r am) :=
+    (hi : InvG R orph a.h) (o : Own b h0 a) : Own b h0 (pubRoom a b r am) :=
   foldl_procClient_own am _ a o (fun _ hl => hi.roomL_tbk hl)
 
 theorem pubUser_own {R : Nat → Sess → String → Prop} {orph : List Nat} {b : Nat} (a : Acc) (u : String) (am : AMsg)
-    (hi : InvG R orph a.h) (o : Own b a) : Own b (pubUser a b u am) :=
+    (hi : InvG R orph a.h) (o : Own b h0 a) : Own b h0 (pubUser a b u am) :=
   foldl_procClient_own am _ a o (fun _ hl => hi.userL_tbk hl)
 
 /-- Delivery on the session subject of a session of `b`. -/
-theorem procSession_own {b : Nat} (a : Acc) (s : Nat) (am : AMsg) (hi : Inv a.h) (o : Own b a) (hb : BkOf a.h s b) :
-    Own b (procSession a s am) := by
+theorem procSession_own {b : Nat} (a : Acc) (s : Nat) (am : AMsg) (hi : Inv a.h) (o : Own b h0 a) (hb : BkOf a.h s b) :
+    Own b h0 (procSession a s am) := by
   unfold procSession
   split
   · exact o
   · split
     · exact o
     · rename_i x hx
-      have ht : TBk a.h s b := target_bk hi hb (by simp [hx]) (by simp)
+      have ht : TBk a.h s b := ⟨target_bk hi hb (by simp [hx]) (by simp), hb⟩
       split
       · rename_i hk
         split
@@ -190,15 +241,16 @@ theorem procSession_own {b : Nat} (a : Acc) (s : Nat) (am : AMsg) (hi : Inv a.h)
             obtain ⟨_, _, _, hp⟩ := hi.virt s x hx hk
             rcases hp with h1 | ⟨p, hp, hpk, hpb, _⟩
             · simp at h1
-            · unfold TBk
+            · have hpbk : BkOf a.h x.parent b := by intro y hy; rw [hp] at hy; cases hy; rw [hpb]; exact hb x hx
+              unfold TBk
               rw [target_nonvirtual hp (by rw [hpk]; decide)]
-              intro y hy; rw [hp] at hy; cases hy; rw [hpb]; exact hb x hx
+              exact ⟨hpbk, hpbk⟩
           · exact o
         · exact o
       · exact procClient_own a s am o ht
 
 theorem publishUsersChangedWithInternal_own {R : Nat → Sess → String → Prop} {orph : List Nat} {b : Nat} (a : Acc) (r : String)
-    (hi : InvG R orph a.h) (o : Own b a) : Own b (publishUsersChangedWithInternal a b r) := by
+    (hi : InvG R orph a.h) (o : Own b h0 a) : Own b h0 (publishUsersChangedWithInternal a b r) := by
   unfold publishUsersChangedWithInternal
   split
   · exact o
@@ -210,20 +262,22 @@ theorem publishUsersChangedWithInternal_own {R : Nat → Sess → String → Pro
 /-! ### leaving and closing -/
 
 
-theorem leaveStruct_keep {b : Nat} {h : Hub} {s : Nat} {x : Sess} (r : String) (rm : Room) (hx : h.sess s = some x) :
-    BkKeep b h (leaveStruct h s x r rm) := by
-  intro t hb z hz
-  unfold leaveStruct at hz
+theorem leaveStruct_sess (h : Hub) (s : Nat) (x : Sess) (r : String) (rm : Room) (t : Nat) :
+    (leaveStruct h s x r rm).sess t = if t = s then some { x with room := none, roomSess := "", seenJoin := [] } else h.sess t := by
+  unfold leaveStruct
   by_cases hk : x.kind = .virtual <;> by_cases he : removeL rm.members s = [] <;>
-    simp only [hk, he, if_true, if_false, hubf] at hz
-  all_goals
-    by_cases e : t = s
-    · subst e; simp at hz; subst hz; exact hb x hx
-    · simp [e] at hz; exact hb z hz
+    simp only [hk, he, if_true, if_false, hubf]
+
+theorem leaveStruct_keep {b : Nat} {h : Hub} {s : Nat} {x : Sess} (r : String) (rm : Room) (hx : h.sess s = some x)
+    (hxb : x.backend = b) : BkKeep b h (leaveStruct h s x r rm) := by
+  refine BkKeep.of_single s ?_ ?_ ?_
+  · intro t e; rw [leaveStruct_sess]; simp [e]
+  · intro z hz; rw [hx] at hz; cases hz; exact hxb
+  · intro z hz; rw [leaveStruct_sess] at hz; simp at hz; subst hz; exact hxb
 
 /-- Leaving a room tells the listeners of that room only; they belong to the leaver's backend. -/
 theorem leaveRoom_own {orph : List Nat} {b : Nat} (a : Acc) (s : Nat) (hi : InvX orph a.h) (hb : BkOf a.h s b)
-    (o : Own b a) : Own b (leaveRoom a s).1 := by
+    (o : Own b h0 a) : Own b h0 (leaveRoom a s).1 := by
   cases hx : a.h.sess s with
   | none => unfold leaveRoom; simp only [hx]; exact o
   | some x =>
@@ -233,7 +287,7 @@ theorem leaveRoom_own {orph : List Nat} {b : Nat} (a : Acc) (s : Nat) (hi : InvX
       obtain ⟨rm, hrm, hmem⟩ := hi.room_mem' s x r hx hr
       have hxb : x.backend = b := hb x hx
       have hls := leaveStruct_inv hi hx hr hrm
-      have hkp : BkKeep b a.h (leaveStruct a.h s x r rm) := leaveStruct_keep r rm hx
+      have hkp : BkKeep b a.h (leaveStruct a.h s x r rm) := leaveStruct_keep r rm hx hxb
       unfold leaveStruct at hls hkp
       unfold leaveRoom roomRemoveSession
       simp only [hx, hr]
@@ -257,9 +311,45 @@ theorem SubSess.bkOf {h h' : Hub} (e : SubSess h h') {s b : Nat} (hb : BkOf h s 
   obtain ⟨x, hx, _, _, e3⟩ := e s x' hx'
   rw [e3]; exact hb x hx
 
+/-- Closing a virtual session keeps the parent and backend of every session that remains. -/
+theorem closeVirtual_par {orph : List Nat} (a : Acc) (v : Nat) (hi : InvX orph a.h)
+    (hk : ∀ x, a.h.sess v = some x → x.kind = .virtual) (t : Nat) :
+    ∀ x', (closeVirtual a v).h.sess t = some x' →
+      ∃ x, a.h.sess t = some x ∧ x'.parent = x.parent ∧ x'.backend = x.backend := by
+  unfold closeVirtual
+  cases hx : a.h.sess v with
+  | none => intro x' h; exact ⟨x', h, rfl, rfl⟩
+  | some x =>
+    simp only []
+    have h1 := dropChild_inv hi hx (hk x hx)
+    generalize hp : modSess a.h x.parent (fun p => { p with children := removeL p.children v }) = hub1 at h1
+    have hm : ∀ y', hub1.sess t = some y' → ∃ y, a.h.sess t = some y ∧ y'.parent = y.parent ∧ y'.backend = y.backend := by
+      rw [← hp]; unfold modSess
+      cases hpar : a.h.sess x.parent with
+      | none => intro y' h; exact ⟨y', h, rfl, rfl⟩
+      | some p =>
+        simp only [hubf]
+        intro y' h
+        by_cases e : t = x.parent
+        · simp only [e, if_true] at h; cases h; rw [e]; exact ⟨p, hpar, rfl, rfl⟩
+        · simp only [e, if_false] at h; exact ⟨y', h, rfl, rfl⟩
+    have hs := leaveRoom_sess { a with h := hub1 } v h1 t
+    intro x' hx'
+    unfold dropVirtual at hx'
+    simp only [facts_vtable, if_true, hubf] at hx'
+    by_cases e : t = v
+    · simp [e] at hx'
+    · simp only [e, if_false] at hx'
+      rcases hs with ⟨_, h0⟩ | ⟨y, y', hy, hy', e1, e2, e3, e4, e5, e6, e7, e8⟩
+      · rw [h0] at hx'; cases hx'
+      · rw [hy'] at hx'; cases hx'
+        obtain ⟨z, hz, f1, f2⟩ := hm y hy
+        exact ⟨z, hz, by rw [e5, f1], by rw [e1, f2]⟩
+
 theorem closeVirtual_own {orph : List Nat} {b : Nat} (a : Acc) (v : Nat) (hi : InvX orph a.h)
-    (hk : ∀ x, a.h.sess v = some x → x.kind = .virtual) (hb : BkOf a.h v b) (o : Own b a) :
-    Own b (closeVirtual a v) := by
+    (hk : ∀ x, a.h.sess v = some x → x.kind = .virtual) (hb : BkOf a.h v b)
+    (hpb : ∀ x, a.h.sess v = some x → BkOf a.h x.parent b) (o : Own b h0 a) :
+    Own b h0 (closeVirtual a v) := by
   unfold closeVirtual
   cases hx : a.h.sess v with
   | none => exact o
@@ -267,58 +357,66 @@ theorem closeVirtual_own {orph : List Nat} {b : Nat} (a : Acc) (v : Nat) (hi : I
     simp only []
     have hkx := hk x hx
     have h1 := dropChild_inv hi hx hkx
-    have hv1 : (modSess a.h x.parent (fun p => { p with children := removeL p.children v })).sess v = some x := by
+    have hne := (hi.virt v x hx hkx).2.2.1
+    have hmod : ∀ t, t ≠ x.parent →
+        (modSess a.h x.parent (fun p => { p with children := removeL p.children v })).sess t = a.h.sess t := by
+      intro t e
       unfold modSess
-      have hne := (hi.virt v x hx hkx).2.2.1
       cases hpar : a.h.sess x.parent with
-      | none => exact hx
-      | some p =>
-        simp only [hubf]
-        have : ¬ v = x.parent := fun e => hne e.symm
-        simp only [this, if_false]
-        exact hx
+      | none => rfl
+      | some p => simp only [hubf, e, if_false]
+    have hv1 : (modSess a.h x.parent (fun p => { p with children := removeL p.children v })).sess v = some x := by
+      rw [hmod v (fun e => hne e.symm)]; exact hx
     have hb1 : BkOf (modSess a.h x.parent (fun p => { p with children := removeL p.children v })) v b := by
       intro y hy; rw [hv1] at hy; cases hy; exact hb x hx
     have hkp : BkKeep b a.h (modSess a.h x.parent (fun p => { p with children := removeL p.children v })) := by
-      intro t hbt z hz
+      refine BkKeep.of_single x.parent hmod (hpb x hx) ?_
+      intro z hz
       unfold modSess at hz
       cases hpar : a.h.sess x.parent with
-      | none => simp only [hpar] at hz; exact hbt z hz
-      | some p =>
-        simp only [hpar, hubf] at hz
-        by_cases e : t = x.parent
-        · subst e; simp at hz; subst hz; exact hbt p hpar
-        · simp [e] at hz; exact hbt z hz
+      | none => simp only [hpar] at hz; first | cases hz | (rw [hpar] at hz; cases hz)
+      | some p => simp only [hpar, hubf, if_true] at hz; cases hz; exact hpb x hx p hpar
     have o1 := leaveRoom_own { a with h := modSess a.h x.parent (fun p => { p with children := removeL p.children v }) } v h1 hb1
       (o.setH _ hkp)
     refine o1.setH _ ?_
-    intro t hbt z hz
-    unfold dropVirtual at hz
-    simp only [facts_vtable, if_true, hubf] at hz
-    by_cases e : t = v
-    · simp [e] at hz
-    · simp only [e, if_false] at hz; exact hbt z hz
+    -- the virtual session itself goes away
+    have hb2 : BkOf (leaveRoom { a with h := modSess a.h x.parent (fun p => { p with children := removeL p.children v }) } v).1.h v b :=
+      (leaveRoom_sub _ v h1).bkOf hb1
+    refine BkKeep.of_single v ?_ hb2 ?_
+    · intro t e
+      unfold dropVirtual
+      simp only [facts_vtable, if_true, hubf, e, if_false]
+    · intro z hz
+      unfold dropVirtual at hz
+      simp [facts_vtable, hubf] at hz
 
 theorem foldl_closeVirtual_own {b : Nat} : ∀ (l : List Nat) (orph : List Nat) (a : Acc), InvX orph a.h →
-    (∀ v, v ∈ l → ∀ x, a.h.sess v = some x → x.kind = .virtual) → (∀ v, v ∈ l → BkOf a.h v b) → Own b a →
-    Own b (l.foldl closeVirtual a) := by
+    (∀ v, v ∈ l → ∀ x, a.h.sess v = some x → x.kind = .virtual) → (∀ v, v ∈ l → BkOf a.h v b) →
+    (∀ v, v ∈ l → ∀ x, a.h.sess v = some x → BkOf a.h x.parent b) → Own b h0 a →
+    Own b h0 (l.foldl closeVirtual a) := by
   intro l
   induction l with
-  | nil => intro orph a _ _ _ o; exact o
+  | nil => intro orph a _ _ _ _ o; exact o
   | cons v l ih =>
-    intro orph a hi hk hb o
+    intro orph a hi hk hb hpb o
     simp only [List.foldl_cons]
     have hkv := hk v (List.mem_cons_self)
-    refine ih _ _ (closeVirtual_inv a v hi hkv) ?_ ?_ (closeVirtual_own a v hi hkv (hb v List.mem_cons_self) o)
+    refine ih _ _ (closeVirtual_inv a v hi hkv) ?_ ?_ ?_
+      (closeVirtual_own a v hi hkv (hb v List.mem_cons_self) (hpb v List.mem_cons_self) o)
     · intro w hw x' hx'
       obtain ⟨x, hx, e, _⟩ := closeVirtual_sess a v hi hkv w x' hx'
       rw [e]; exact hk w (List.mem_cons_of_mem _ hw) x hx
     · intro w hw
       exact (closeVirtual_sub a v hi hkv).bkOf (hb w (List.mem_cons_of_mem _ hw))
+    · intro w hw x' hx' p' hp'
+      obtain ⟨x, hx, e1, _⟩ := closeVirtual_par a v hi hkv w x' hx'
+      obtain ⟨p, hp, _, e2⟩ := closeVirtual_par a v hi hkv x'.parent p' hp'
+      rw [e2]; rw [e1] at hp
+      exact hpb w (List.mem_cons_of_mem _ hw) x hx p hp
 
 theorem closeClient_own {b : Nat} (a : Acc) (s : Nat) (hi : Inv a.h)
-    (hk : ∀ x, a.h.sess s = some x → x.kind ≠ .virtual) (hb : BkOf a.h s b) (o : Own b a) :
-    Own b (closeClient a s) := by
+    (hk : ∀ x, a.h.sess s = some x → x.kind ≠ .virtual) (hb : BkOf a.h s b) (o : Own b h0 a) :
+    Own b h0 (closeClient a s) := by
   unfold closeClient
   cases hx : a.h.sess s with
   | none => exact o
@@ -329,8 +427,8 @@ theorem closeClient_own {b : Nat} (a : Acc) (s : Nat) (hi : Inv a.h)
     have o1 := leaveRoom_own a s hi hb o
     have hs := leaveRoom_sess a s hi s
     simp only [hx, if_true] at hs
-    rcases hs with ⟨h0, _⟩ | ⟨y, x, hy, hx1, e1, e2, e3, e4, e5, e6, e7, e8⟩
-    · cases h0
+    rcases hs with ⟨h0', _⟩ | ⟨y, x, hy, hx1, e1, e2, e3, e4, e5, e6, e7, e8⟩
+    · cases h0'
     · cases hy
       simp only [hx1]
       have hd := dropClient_inv h1 hx1 (by rw [e2]; exact hk _ hx) e8
@@ -340,7 +438,7 @@ theorem closeClient_own {b : Nat} (a : Acc) (s : Nat) (hi : Inv a.h)
           simp only [hu, ne_eq, not_true_eq_false, not_false_eq_true, if_true, if_false, hubf]
       -- the children belong to the backend of their internal client
       have hxb : x.backend = b := (hsub1.bkOf hb) x hx1
-      have hcb : ∀ v, v ∈ x.children → BkOf (dropClient (leaveRoom a s).1.h s x) v b := by
+      have hchild : ∀ v, v ∈ x.children → ∀ z, (dropClient (leaveRoom a s).1.h s x).sess v = some z → z.backend = b ∧ z.parent = s := by
         intro v hv z hz
         rw [hdsess] at hz
         by_cases e : v = s
@@ -350,21 +448,23 @@ theorem closeClient_own {b : Nat} (a : Acc) (s : Nat) (hi : Inv a.h)
           have hzv : z = vx := by rw [hvx] at hz; exact (Option.some.inj hz).symm
           subst hzv
           obtain ⟨_, _, _, hp⟩ := h1.virt v z hvx hvk
-          rcases hp with h0 | ⟨p, hp, _, hpb, _⟩
-          · simp at h0
-          · rw [hvp, hx1] at hp; cases hp; rw [← hpb]; exact hxb
-      exact foldl_closeVirtual_own x.children x.children
+          rcases hp with h0' | ⟨p, hp, _, hpb, _⟩
+          · simp at h0'
+          · rw [hvp, hx1] at hp; cases hp; exact ⟨by rw [← hpb]; exact hxb, hvp⟩
+      refine foldl_closeVirtual_own x.children x.children
         { (leaveRoom a s).1 with h := dropClient (leaveRoom a s).1.h s x } hd
-        (by intro v hv y hy; exact hd.orph_virt v hv y hy) hcb
-        (o1.setH _ (by
-          intro t hbt z hz
-          rw [hdsess] at hz
-          by_cases e : t = s
-          · simp [e] at hz
-          · simp only [e, if_false] at hz; exact hbt z hz))
+        (by intro v hv y hy; exact hd.orph_virt v hv y hy) (fun v hv z hz => (hchild v hv z hz).1) ?_
+        (o1.setH _ ?_)
+      · -- the parent of every child is the session that is gone
+        intro v hv z hz p hp
+        have hp' : (dropClient (leaveRoom a s).1.h s x).sess z.parent = some p := hp
+        rw [(hchild v hv z hz).2, hdsess] at hp'
+        simp at hp'
+      · refine BkKeep.of_single s (fun t e => by rw [hdsess]; simp [e]) (hsub1.bkOf hb) ?_
+        intro z hz; rw [hdsess] at hz; simp at hz
 
-theorem closeSession_own {b : Nat} (a : Acc) (s : Nat) (hi : Inv a.h) (hb : BkOf a.h s b) (o : Own b a) :
-    Own b (closeSession a s) := by
+theorem closeSession_own {b : Nat} (a : Acc) (s : Nat) (hi : Inv a.h) (hb : BkOf a.h s b) (o : Own b h0 a) :
+    Own b h0 (closeSession a s) := by
   unfold closeSession
   cases hx : a.h.sess s with
   | none => exact o
@@ -372,16 +472,22 @@ theorem closeSession_own {b : Nat} (a : Acc) (s : Nat) (hi : Inv a.h) (hb : BkOf
     simp only []
     by_cases hk : x.kind = .virtual
     · simp only [hk, if_true]
-      exact closeVirtual_own a s hi (by intro y hy; rw [hx] at hy; cases hy; exact hk) hb o
+      refine closeVirtual_own a s hi (by intro y hy; rw [hx] at hy; cases hy; exact hk) hb ?_ o
+      intro y hy p hp
+      rw [hx] at hy; cases hy
+      obtain ⟨_, _, _, hpp⟩ := hi.virt s x hx hk
+      rcases hpp with h1 | ⟨p', hp', _, hpb, _⟩
+      · simp at h1
+      · rw [hp'] at hp; cases hp; rw [hpb]; exact hb x hx
     · simp only [hk, if_false]
       exact closeClient_own a s hi (by intro y hy; rw [hx] at hy; cases hy; exact hk) hb o
 
 /-- Closing the sessions that a step marked for closing (they all belong to `b`). -/
-theorem flushCloses_own {b : Nat} (a : Acc) (hi : Inv a.h) (o : Own b a) :
-    Own b (flushCloses a) := by
+theorem flushCloses_own {b : Nat} (a : Acc) (hi : Inv a.h) (o : Own b h0 a) :
+    Own b h0 (flushCloses a) := by
   unfold flushCloses
-  have gen : ∀ (l : List Nat) (a : Acc), Inv a.h → (∀ s, s ∈ l → BkOf a.h s b) → Own b a →
-      Own b (l.foldl (fun a s =>
+  have gen : ∀ (l : List Nat) (a : Acc), Inv a.h → (∀ s, s ∈ l → BkOf a.h s b) → Own b h0 a →
+      Own b h0 (l.foldl (fun a s =>
         match a.h.sess s with
         | none => a
         | some x =>
@@ -410,13 +516,13 @@ theorem flushCloses_own {b : Nat} (a : Acc) (hi : Inv a.h) (o : Own b a) :
           have := hsub.bkOf (hb t (List.mem_cons_of_mem _ ht))
           intro y hy
           exact this y (by simpa [closeConn] using hy)
-  exact gen a.closes { a with closes := [] } hi o.closes ⟨o.outs, by intro s hs; cases hs⟩
+  exact gen a.closes { a with closes := [] } hi o.closes ⟨o.outs, (by intro s hs; cases hs), o.frame⟩
 
 /-! ### joining -/
 
 /-- Writing to a session of `b` itself (it is not virtual, or its internal client is of `b` too). -/
 theorem sendTo_own_inv {orph : List Nat} {b : Nat} (a : Acc) (s : Nat) (m : Msg) (hi : InvX orph a.h) (hno : s ∉ orph)
-    (hb : BkOf a.h s b) (o : Own b a) : Own b (sendTo a s m) := by
+    (hb : BkOf a.h s b) (o : Own b h0 a) : Own b h0 (sendTo a s m) := by
   cases hx : a.h.sess s with
   | none =>
     unfold sendTo target
@@ -425,7 +531,7 @@ theorem sendTo_own_inv {orph : List Nat} {b : Nat} (a : Acc) (s : Nat) (m : Msg)
   | some x => exact sendTo_own a s m o (target_bk hi hb (by simp [hx]) hno)
 
 theorem notifySessionJoined_own {b : Nat} (a : Acc) (b' : Nat) (r : String) (s : Nat) (hi : Inv a.h) (hb : BkOf a.h s b)
-    (o : Own b a) : Own b (notifySessionJoined a b' r s) := by
+    (o : Own b h0 a) : Own b h0 (notifySessionJoined a b' r s) := by
   unfold notifySessionJoined
   split
   · exact o
@@ -436,18 +542,18 @@ theorem notifySessionJoined_own {b : Nat} (a : Acc) (b' : Nat) (r : String) (s :
 
 /-- The tail of `Room.AddSession`: the joiner gets the member list, an internal joiner triggers a participants list. -/
 theorem roomAddSession_tail_own {b : Nat} (h1 : Hub) (hi1 : Inv h1) (r : String) (s : Nat) (hb1 : BkOf h1 s b)
-    (a2 : Acc) (c2 : CoreEq h1 a2.h) (o2 : Own b a2) :
-    Own b (notifySessionJoined a2 b r s) ∧ Own b (publishUsersChangedWithInternal (notifySessionJoined a2 b r s) b r) := by
+    (a2 : Acc) (c2 : CoreEq h1 a2.h) (o2 : Own b h0 a2) :
+    Own b h0 (notifySessionJoined a2 b r s) ∧ Own b h0 (publishUsersChangedWithInternal (notifySessionJoined a2 b r s) b r) := by
   have hi2 := hi1.congr c2
   have o3 := notifySessionJoined_own a2 b r s hi2 (c2.bkOf hb1) o2
   exact ⟨o3, publishUsersChangedWithInternal_own _ r (hi2.congr (notifySessionJoined_core _ _ _ _)) o3⟩
 
 theorem roomAddSession_own {b : Nat} (a : Acc) (r : String) (s : Nat) (kind : Kind) (su : String)
-    (hi1 : Inv (addMember a.h b r s su)) (hb : BkOf a.h s b) (o : Own b a) :
-    Own b (roomAddSession a b r s kind su) := by
+    (hi1 : Inv (addMember a.h b r s su)) (hb : BkOf a.h s b) (o : Own b h0 a) :
+    Own b h0 (roomAddSession a b r s kind su) := by
   have hb1 : BkOf (addMember a.h b r s su) s b := by
     intro y hy; rw [addMember_sess] at hy; exact hb y hy
-  have oj : Own b (pubRoom { a with h := addMember a.h b r s su } b r (.msg (.join [s]))) :=
+  have oj : Own b h0 (pubRoom { a with h := addMember a.h b r s su } b r (.msg (.join [s]))) :=
     pubRoom_own _ r _ hi1 (o.setH _ (BkKeep.of_sess_eq (addMember_sess _ _ _ _ _)))
   have cj : CoreEq (addMember a.h b r s su) (pubRoom { a with h := addMember a.h b r s su } b r (.msg (.join [s]))).h :=
     coreOf (pubRoom_core _ _ _ _) rfl
@@ -471,8 +577,8 @@ theorem joinTables_sess_self (h : Hub) (s : Nat) (x : Sess) (r rsid : String) (p
   by_cases hrs : rsid = "" <;> simp [hrs, hubf]
 
 theorem doJoin_own {b : Nat} (a : Acc) (s : Nat) (r rsid : String) (perms : Option (List String)) (su : String)
-    (hi : Inv a.h) (hk : ∀ x, a.h.sess s = some x → x.kind ≠ .virtual) (hb : BkOf a.h s b) (o : Own b a) :
-    Own b (doJoin a s r rsid perms su) := by
+    (hi : Inv a.h) (hk : ∀ x, a.h.sess s = some x → x.kind ≠ .virtual) (hb : BkOf a.h s b) (o : Own b h0 a) :
+    Own b h0 (doJoin a s r rsid perms su) := by
   unfold doJoin
   simp only []
   have h1 := leaveRoom_inv a s hi
@@ -494,18 +600,15 @@ theorem doJoin_own {b : Nat} (a : Acc) (s : Nat) (r rsid : String) (perms : Opti
       have c2 := addMember_congr c1 x.backend r s su
       obtain ⟨yj, hyj, hyb, hyk⟩ := joinTables_sess_self (leaveRoom a s).1.h s x r rsid perms
       -- the room reply goes to the session itself
-      have o5 : Own b (sendTo { (leaveRoom a s).1 with h := joinTables (leaveRoom a s).1.h s x r rsid perms } s (.room r)) := by
+      have o5 : Own b h0 (sendTo { (leaveRoom a s).1 with h := joinTables (leaveRoom a s).1.h s x r rsid perms } s (.room r)) := by
         refine sendTo_own _ s _ (o1.setH _ ?_) ?_
-        · intro t hbt z hz
-          have hjs : ∀ k, k ≠ s → (joinTables (leaveRoom a s).1.h s x r rsid perms).sess k = (leaveRoom a s).1.h.sess k := by
+        · have hjs : ∀ k, k ≠ s → (joinTables (leaveRoom a s).1.h s x r rsid perms).sess k = (leaveRoom a s).1.h.sess k := by
             intro k hk; unfold joinTables
             by_cases hrs : rsid = "" <;> simp [hrs, hubf, hk]
-          by_cases e : t = s
-          · subst e
-            have hz' : (joinTables (leaveRoom a t).1.h t x r rsid perms).sess t = some z := hz
-            rw [hyj] at hz'; cases hz'; rw [hyb]; exact hxb
-          · have hz' : (joinTables (leaveRoom a s).1.h s x r rsid perms).sess t = some z := hz
-            rw [hjs t e] at hz'; exact hbt z hz'
+          refine BkKeep.of_single s hjs hb1 ?_
+          intro z hz
+          have hz' : (joinTables (leaveRoom a s).1.h s x r rsid perms).sess s = some z := hz
+          rw [hyj] at hz'; cases hz'; rw [hyb]; exact hxb
         show BkOf (joinTables (leaveRoom a s).1.h s x r rsid perms) (target (joinTables (leaveRoom a s).1.h s x r rsid perms) s) b
         rw [target_nonvirtual hyj (by rw [hyk]; exact hxk)]
         intro z hz; rw [hyj] at hz; cases hz; rw [hyb]; exact hxb
@@ -517,14 +620,14 @@ theorem doJoin_own {b : Nat} (a : Acc) (s : Nat) (r rsid : String) (perms : Opti
       have hz' : (joinTables (leaveRoom a s).1.h s x r rsid perms).sess s = some z := hz
       rw [hyj] at hz'; cases hz'; exact hyb
 
-theorem kickBye_own {b : Nat} (a : Acc) (v : Nat) (hi : Inv a.h) (hb : BkOf a.h v b) (o : Own b a) : Own b (kickBye a v) := by
+theorem kickBye_own {b : Nat} (a : Acc) (v : Nat) (hi : Inv a.h) (hb : BkOf a.h v b) (o : Own b h0 a) : Own b h0 (kickBye a v) := by
   unfold kickBye
   split
   · exact sendTo_own_inv a v _ hi (by simp) hb o
   · exact o
 
-theorem disconnectByRoomSessionId_own {b : Nat} (a : Acc) (rs : String) (req : Nat) (hi : Inv a.h) (o : Own b a) :
-    Own b (disconnectByRoomSessionId a rs b req) := by
+theorem disconnectByRoomSessionId_own {b : Nat} (a : Acc) (rs : String) (req : Nat) (hi : Inv a.h) (o : Own b h0 a) :
+    Own b h0 (disconnectByRoomSessionId a rs b req) := by
   unfold disconnectByRoomSessionId
   cases hv : a.h.rs2sid rs with
   | none => exact o
@@ -556,14 +659,14 @@ theorem disconnectByRoomSessionId_own {b : Nat} (a : Acc) (rs : String) (req : N
           generalize kickBye (leaveRoom a v).1 v = a2 at hcore o2 hb2 ⊢
           have hi2 := h1.congr hcore
           have o3 := closeSession_own a2 v hi2 hb2 o2
-          have o4 : Own b { closeSession a2 v with closes := (closeSession a2 v).closes.filter (· ≠ v) } :=
-            ⟨o3.outs, fun t ht => o3.closes t (List.mem_filter.mp ht).1⟩
+          have o4 : Own b h0 { closeSession a2 v with closes := (closeSession a2 v).closes.filter (· ≠ v) } :=
+            ⟨o3.outs, fun t ht => o3.closes t (List.mem_filter.mp ht).1, o3.frame⟩
           split
           · exact o4.setH _ (BkKeep.of_sess_eq rfl)
           · exact o4
 
-theorem processLeave_own {b : Nat} (a : Acc) (s : Nat) (x : Sess) (hi : Inv a.h) (hb : BkOf a.h s b) (o : Own b a) :
-    Own b (processLeave a s x) := by
+theorem processLeave_own {b : Nat} (a : Acc) (s : Nat) (x : Sess) (hi : Inv a.h) (hb : BkOf a.h s b) (o : Own b h0 a) :
+    Own b h0 (processLeave a s x) := by
   unfold processLeave
   simp only []
   have h1 := leaveRoom_inv a s hi
@@ -577,8 +680,8 @@ theorem processLeave_own {b : Nat} (a : Acc) (s : Nat) (x : Sess) (hi : Inv a.h)
   · exact o1
 
 theorem processAlready_own {b : Nat} (a : Acc) (s : Nat) (x : Sess) (rsid : String) (hi : Inv a.h)
-    (hx : a.h.sess s = some x) (hroom : x.room.isSome = true) (hb : BkOf a.h s b) (o : Own b a) :
-    Own b (processAlready a s x rsid) := by
+    (hx : a.h.sess s = some x) (hroom : x.room.isSome = true) (hb : BkOf a.h s b) (o : Own b h0 a) :
+    Own b h0 (processAlready a s x rsid) := by
   unfold processAlready
   simp only []
   have hne : (if rsid = "" then pubRs s else rsid) ≠ "" := by
@@ -591,13 +694,12 @@ theorem processAlready_own {b : Nat} (a : Acc) (s : Nat) (x : Sess) (rsid : Stri
     · simp only [he, if_true]; exact hi
     · simp only [he, if_false]; exact rsUpdate_inv hi hx hroom _ hne
   have hkp : BkKeep b a.h (if x.roomSess = rs then a.h else setSess (rsSet a.h s rs) s (some { x with roomSess := rs })) := by
-    intro t hbt z hz
     by_cases he : x.roomSess = rs
-    · simp only [he, if_true] at hz; exact hbt z hz
-    · simp only [he, if_false, hubf] at hz
-      by_cases e : t = s
-      · subst e; simp at hz; subst hz; exact hbt x hx
-      · simp [e] at hz; exact hbt z hz
+    · simp only [he, if_true]; exact BkKeep.refl _
+    · simp only [he, if_false]
+      refine BkKeep.of_single s ?_ hb ?_
+      · intro t e; simp [hubf, e]
+      · intro z hz; simp [hubf] at hz; subst hz; exact hb x hx
   refine sendTo_own_inv _ s _ hh (by simp) ?_ (o.setH _ hkp)
   intro z hz
   have hxb := hb x hx
@@ -606,15 +708,15 @@ theorem processAlready_own {b : Nat} (a : Acc) (s : Nat) (x : Sess) (rsid : Stri
   · simp only [he, if_false, hubf] at hz; cases hz; exact hxb
 
 theorem processJoinReply_own {b : Nat} (a : Acc) (s : Nat) (x : Sess) (r rsid : String) (reply : JoinReply) (hi : Inv a.h)
-    (hkk : ∀ y, a.h.sess s = some y → y.kind ≠ .virtual) (hx : a.h.sess s = some x) (hb : BkOf a.h s b) (o : Own b a) :
-    Own b (processJoinReply a s x r rsid reply) := by
+    (hkk : ∀ y, a.h.sess s = some y → y.kind ≠ .virtual) (hx : a.h.sess s = some x) (hb : BkOf a.h s b) (o : Own b h0 a) :
+    Own b h0 (processJoinReply a s x r rsid reply) := by
   have hxb : x.backend = b := hb x hx
   subst hxb
   have hd : Inv (if rsid ≠ "" then disconnectByRoomSessionId a rsid x.backend s else a).h := by
     split
     · exact disconnectByRoomSessionId_inv a rsid x.backend s hi
     · exact hi
-  have od : Own x.backend (if rsid ≠ "" then disconnectByRoomSessionId a rsid x.backend s else a) := by
+  have od : Own x.backend h0 (if rsid ≠ "" then disconnectByRoomSessionId a rsid x.backend s else a) := by
     split
     · exact disconnectByRoomSessionId_own a rsid s hi o
     · exact o
@@ -635,7 +737,7 @@ theorem processJoinReply_own {b : Nat} (a : Acc) (s : Nat) (x : Sess) (r rsid : 
     · exact hkk y hy
 
 theorem processRoom_own {b : Nat} (a : Acc) (s : Nat) (r rsid : String) (reply : JoinReply) (hi : Inv a.h)
-    (hb : BkOf a.h s b) (o : Own b a) : Own b (processRoom a s r rsid reply) := by
+    (hb : BkOf a.h s b) (o : Own b h0 a) : Own b h0 (processRoom a s r rsid reply) := by
   unfold processRoom
   cases hx : a.h.sess s with
   | none => exact o
@@ -668,9 +770,9 @@ theorem processRoom_own {b : Nat} (a : Acc) (s : Nat) (r rsid : String) (reply :
 /-! ### hello, resume, disconnect, bye -/
 
 /-- The hub and the outputs change: sessions keep their backend, the new outputs go to `b`. -/
-theorem Own.step {b : Nat} {a : Acc} (o : Own b a) (h' : Hub) (hk : BkKeep b a.h h') (l : List Out)
-    (hl : ∀ x, x ∈ l → ∀ b', x.bk = some b' → b' = b) : Own b { a with h := h', outs := a.outs ++ l } :=
-  (o.setH h' hk).append l rfl hl (o.setH h' hk).closes
+theorem Own.step {b : Nat} {a : Acc} (o : Own b h0 a) (h' : Hub) (hk : BkKeep b a.h h') (l : List Out)
+    (hl : ∀ x, x ∈ l → ∀ b', x.bk = some b' → b' = b) : Own b h0 { a with h := h', outs := a.outs ++ l } :=
+  (o.setH h' hk).append l rfl rfl hl (o.setH h' hk).closes
 
 theorem single_bk {b : Nat} (c : Nat) (m : Msg) (bk : Option Nat) (h : ∀ b', bk = some b' → b' = b) :
     ∀ x, x ∈ [(⟨c, m, bk⟩ : Out)] → ∀ b', x.bk = some b' → b' = b := by
@@ -681,8 +783,8 @@ theorem helloTables_sess (h : Hub) (c b : Nat) (kind : Kind) (user : String) (d 
   unfold helloTables
   by_cases hu : user = "" <;> simp [hu, hubf]
 
-theorem processHello_own {b : Nat} (a : Acc) (c : Nat) (kind : Kind) (user : String) (d i : Bool) (o : Own b a) :
-    Own b (processHello a c b kind user d i) := by
+theorem processHello_own {b : Nat} (a : Acc) (c : Nat) (kind : Kind) (user : String) (d i : Bool) (hi : Inv a.h) (o : Own b h0 a) :
+    Own b h0 (processHello a c b kind user d i) := by
   unfold processHello
   split
   · exact o
@@ -691,11 +793,11 @@ theorem processHello_own {b : Nat} (a : Acc) (c : Nat) (kind : Kind) (user : Str
     · exact o.step { a.h with expectHello := removeL a.h.expectHello c ++ [c] } (BkKeep.of_sess_eq rfl) _
         (single_bk _ _ (some b) (by intro b' hb'; exact (Option.some.inj hb').symm))
     · refine o.step _ ?_ _ (single_bk _ _ (some b) (by intro b' hb'; exact (Option.some.inj hb').symm))
-      intro t hbt z hz
-      rw [helloTables_sess] at hz
-      by_cases e : t = a.h.nextSid
-      · simp only [e, if_true] at hz; cases hz; rfl
-      · simp only [e, if_false] at hz; exact hbt z hz
+      have hnew : a.h.sess a.h.nextSid = none := hi.fresh _ (Nat.le_refl _)
+      refine BkKeep.of_single a.h.nextSid ?_ ?_ ?_
+      · intro t e; rw [helloTables_sess]; simp [e]
+      · intro z hz; rw [hnew] at hz; cases hz
+      · intro z hz; rw [helloTables_sess] at hz; simp at hz; subst hz; rfl
 
 theorem closeConn_keep {b : Nat} (h : Hub) (c : Nat) : BkKeep b h (closeConn h c) := BkKeep.of_sess_eq rfl
 
@@ -704,7 +806,7 @@ theorem resumeTables_sess (h : Hub) (c s : Nat) (x : Sess) (t : Nat) :
   unfold resumeTables
   cases x.conn <;> simp [hubf]
 
-theorem flushPending_own {b : Nat} (s : Nat) : ∀ (l : List Msg) (a : Acc), BkOf a.h s b → Own b a → Own b (flushPending a s l) := by
+theorem flushPending_own {b : Nat} (s : Nat) : ∀ (l : List Msg) (a : Acc), BkOf a.h s b → Own b h0 a → Own b h0 (flushPending a s l) := by
   intro l
   induction l with
   | nil => intro a _ o; exact o
@@ -719,7 +821,7 @@ theorem flushPending_own {b : Nat} (s : Nat) : ∀ (l : List Msg) (a : Acc), BkO
     · split
       · rename_i y hy
         split
-        · refine ⟨?_, ?_⟩
+        · refine ⟨?_, ?_, o.frame⟩
           · intro x hx b' hb'
             rcases List.mem_append.mp hx with h1 | h1
             · exact o.outs x h1 b' hb'
@@ -734,8 +836,8 @@ theorem flushPending_own {b : Nat} (s : Nat) : ∀ (l : List Msg) (a : Acc), BkO
         · exact o
       · exact o
 
-theorem notifyResumed_own {b : Nat} (a : Acc) (s : Nat) (hi : Inv a.h) (hb : BkOf a.h s b) (o : Own b a) :
-    Own b (notifyResumed a s) := by
+theorem notifyResumed_own {b : Nat} (a : Acc) (s : Nat) (hi : Inv a.h) (hb : BkOf a.h s b) (o : Own b h0 a) :
+    Own b h0 (notifyResumed a s) := by
   unfold notifyResumed
   split
   · exact o
@@ -749,7 +851,7 @@ theorem notifyResumed_own {b : Nat} (a : Acc) (s : Nat) (hi : Inv a.h) (hb : BkO
         · exact sendTo_own_inv a s _ hi (by simp) hb o
 
 theorem processResume_own {b : Nat} (a : Acc) (c : Nat) (os : Option Nat) (hi : Inv a.h)
-    (hb : ∀ s, os = some s → BkOf a.h s b) (o : Own b a) : Own b (processResume a c os) := by
+    (hb : ∀ s, os = some s → BkOf a.h s b) (o : Own b h0 a) : Own b h0 (processResume a c os) := by
   unfold processResume
   by_cases hg : (!a.h.connOpen c || (a.h.connSess c).isSome) = true
   · simp only [hg, if_true]; exact o
@@ -758,7 +860,7 @@ theorem processResume_own {b : Nat} (a : Acc) (c : Nat) (os : Option Nat) (hi : 
       cases h : a.h.connOpen c <;> simp_all
     have hfree : a.h.connSess c = none := by
       cases h : a.h.connSess c <;> simp_all
-    have onone : Own b { a with outs := a.outs ++ [⟨c, .error "no_such_session", none⟩] } :=
+    have onone : Own b h0 { a with outs := a.outs ++ [⟨c, .error "no_such_session", none⟩] } :=
       o.step _ (BkKeep.of_sess_eq rfl) _ (single_bk _ _ none (by intro b' hb'; cases hb'))
     cases os with
     | none => exact onone
@@ -774,15 +876,13 @@ theorem processResume_own {b : Nat} (a : Acc) (c : Nat) (os : Option Nat) (hi : 
           have hxb : x.backend = b := hb s rfl x hx
           have hr := resumeTables_inv hi hx hk hopen hfree
           have hkp : BkKeep b a.h (resumeTables a.h c s x) := by
-            intro t hbt z hz
-            rw [resumeTables_sess] at hz
-            by_cases e : t = s
-            · simp only [e, if_true] at hz; cases hz; exact hxb
-            · simp only [e, if_false] at hz; exact hbt z hz
-          have o1 : Own b (resumeAcc a c s x) := by
+            refine BkKeep.of_single s ?_ (hb s rfl) ?_
+            · intro t e; rw [resumeTables_sess]; simp [e]
+            · intro z hz; rw [resumeTables_sess] at hz; simp at hz; subst hz; exact hxb
+          have o1 : Own b h0 (resumeAcc a c s x) := by
             unfold resumeAcc
             simp only []
-            refine ⟨?_, fun t ht => hkp t (o.closes t ht)⟩
+            refine ⟨?_, fun t ht => hkp.keep t (o.closes t ht), fun t z h1 h2 => hkp.frame t z (o.frame t z h1 h2) h2⟩
             intro y hy b' hb'
             rcases List.mem_append.mp hy with h1 | h1
             · rcases List.mem_append.mp h1 with h2 | h2
@@ -794,7 +894,7 @@ theorem processResume_own {b : Nat} (a : Acc) (c : Nat) (os : Option Nat) (hi : 
                   simp only [Option.some.injEq] at hb'; omega
             · simp only [List.mem_singleton] at h1; subst h1
               simp only [Option.some.injEq] at hb'; omega
-          have hbs : BkOf (resumeAcc a c s x).h s b := hkp s (hb s rfl)
+          have hbs : BkOf (resumeAcc a c s x).h s b := hkp.keep s (hb s rfl)
           have o2 := flushPending_own s x.pending (resumeAcc a c s x) hbs o1
           have hA : (flushPending (resumeAcc a c s x) s x.pending).h = resumeTables a.h c s x := by
             rw [flushPending_h]; rfl
@@ -804,28 +904,38 @@ theorem processResume_own {b : Nat} (a : Acc) (c : Nat) (os : Option Nat) (hi : 
             rw [hA]; exact hbs
           · simp only [hn, Bool.false_eq_true, if_false]; exact o2
 
-theorem disconnectTables_sess_keep {b : Nat} (h : Hub) (c s : Nat) : BkKeep b h (disconnectTables h c s) := by
-  intro t hbt z hz
-  unfold disconnectTables modSess at hz
-  simp only [hubf] at hz
+theorem disconnectTables_sess_keep {b : Nat} (h : Hub) (c s : Nat) (hb : BkOf h s b) : BkKeep b h (disconnectTables h c s) := by
+  have hsess : ∀ t, (disconnectTables h c s).sess t =
+      if t = s then (h.sess s).map (fun x => if x.conn = some c then { x with conn := none } else x) else h.sess t := by
+    intro t
+    unfold disconnectTables modSess
+    simp only [hubf]
+    cases hs : h.sess s with
+    | none => by_cases e : t = s <;> simp [hs, e, hubf]
+    | some x => by_cases e : t = s <;> simp [hs, hubf, e]
+  refine BkKeep.of_single s (fun t e => by rw [hsess]; simp [e]) hb ?_
+  intro z hz
+  rw [hsess] at hz
+  simp only [if_true] at hz
   cases hs : h.sess s with
-  | none => simp only [hs] at hz; exact hbt z hz
+  | none => simp [hs] at hz
   | some x =>
-    simp only [hs, hubf] at hz
-    by_cases e : t = s
-    · subst e; simp at hz; subst hz; split <;> exact hbt x hs
-    · simp [e] at hz; exact hbt z hz
+    simp only [hs, Option.map_some, Option.some.injEq] at hz
+    subst hz
+    split <;> exact hb x hs
 
-theorem processDisconnect_own {b : Nat} (a : Acc) (c : Nat) (o : Own b a) : Own b (processDisconnect a c) := by
+theorem processDisconnect_own {b : Nat} (a : Acc) (c : Nat) (hb : ∀ s, a.h.connSess c = some s → BkOf a.h s b)
+    (o : Own b h0 a) : Own b h0 (processDisconnect a c) := by
   unfold processDisconnect
   split
   · exact o
   · split
     · exact o.setH _ (closeConn_keep _ _)
-    · exact o.setH _ (disconnectTables_sess_keep _ _ _)
+    · rename_i s hs
+      exact o.setH _ (disconnectTables_sess_keep _ _ _ (hb s hs))
 
 theorem processBye_own {b : Nat} (a : Acc) (c : Nat) (hi : Inv a.h)
-    (hb : ∀ s, a.h.connSess c = some s → BkOf a.h s b) (o : Own b a) : Own b (processBye a c) := by
+    (hb : ∀ s, a.h.connSess c = some s → BkOf a.h s b) (o : Own b h0 a) : Own b h0 (processBye a c) := by
   unfold processBye
   cases hcs : a.h.connSess c with
   | none =>
@@ -836,22 +946,22 @@ theorem processBye_own {b : Nat} (a : Acc) (c : Nat) (hi : Inv a.h)
   | some s =>
     simp only []
     have hbs := hb s hcs
-    have o1 : Own b { a with outs := a.outs ++ [⟨c, .bye "", (a.h.sess s).map (·.backend)⟩] } := by
+    have o1 : Own b h0 { a with outs := a.outs ++ [⟨c, .bye "", (a.h.sess s).map (·.backend)⟩] } := by
       refine o.step _ (BkKeep.of_sess_eq rfl) _ (single_bk _ _ _ ?_)
       intro b' hb'
       cases hx : a.h.sess s with
       | none => simp [hx] at hb'
       | some x => simp [hx] at hb'; rw [← hb']; exact hbs x hx
-    have o2 := processDisconnect_own _ c o1
+    have o2 := processDisconnect_own { a with outs := a.outs ++ [⟨c, .bye "", (a.h.sess s).map (·.backend)⟩] } c hb o1
     have hi2 := processDisconnect_inv { a with outs := a.outs ++ [⟨c, .bye "", (a.h.sess s).map (·.backend)⟩] } c hi
     refine closeSession_own _ s hi2 ?_ o2
     -- the session keeps its backend through the disconnect
     have : BkKeep b a.h (processDisconnect { a with outs := a.outs ++ [⟨c, .bye "", (a.h.sess s).map (·.backend)⟩] } c).h := by
       unfold processDisconnect
       split
-      · exact fun t h => h
-      · simp only [hcs]; exact disconnectTables_sess_keep _ _ _
-    exact this s hbs
+      · exact BkKeep.refl _
+      · simp only [hcs]; exact disconnectTables_sess_keep _ _ _ hbs
+    exact this.keep s hbs
 
 /-! ### messages, virtual sessions, in-call flags -/
 
@@ -860,12 +970,12 @@ theorem facts_guards : Generated.Hub.messageBackendChecked = true ∧ Generated.
 theorem TBk.of_sess_eq {h h' : Hub} {l b : Nat} (e : h'.sess = h.sess) (t : TBk h l b) : TBk h' l b := by
   unfold TBk BkOf target at *; rw [e]; exact t
 
-theorem pubRoom_own' {b : Nat} (a : Acc) (r : String) (am : AMsg) (hl : ∀ l, l ∈ a.h.roomL b r → TBk a.h l b) (o : Own b a) :
-    Own b (pubRoom a b r am) :=
+theorem pubRoom_own' {b : Nat} (a : Acc) (r : String) (am : AMsg) (hl : ∀ l, l ∈ a.h.roomL b r → TBk a.h l b) (o : Own b h0 a) :
+    Own b h0 (pubRoom a b r am) :=
   foldl_procClient_own am _ a o hl
 
 theorem publishUsersChangedWithInternal_own' {b : Nat} (a : Acc) (r : String)
-    (hl : ∀ l, l ∈ a.h.roomL b r → TBk a.h l b) (o : Own b a) : Own b (publishUsersChangedWithInternal a b r) := by
+    (hl : ∀ l, l ∈ a.h.roomL b r → TBk a.h l b) (o : Own b h0 a) : Own b h0 (publishUsersChangedWithInternal a b r) := by
   unfold publishUsersChangedWithInternal
   split
   · exact o
@@ -875,7 +985,7 @@ theorem publishUsersChangedWithInternal_own' {b : Nat} (a : Acc) (r : String)
     · exact pubRoom_own' a r _ hl o
 
 theorem processMessage_own {b : Nat} (a : Acc) (s : Nat) (ctl : Bool) (rc : Rcpt) (data : String) (hi : Inv a.h)
-    (hb : BkOf a.h s b) (o : Own b a) : Own b (processMessage a s ctl rc data) := by
+    (hb : BkOf a.h s b) (o : Own b h0 a) : Own b h0 (processMessage a s ctl rc data) := by
   unfold processMessage
   cases hx : a.h.sess s with
   | none => exact o
@@ -946,7 +1056,7 @@ theorem virtualTables_sess (h : Hub) (s : Nat) (x : Sess) (r vkey user : String)
   simp only [hubf]
 
 theorem addVirtual_own {b : Nat} (a : Acc) (s : Nat) (r vkey user : String) (ic : Option Nat) (ok : Bool) (hi : Inv a.h)
-    (hb : BkOf a.h s b) (o : Own b a) : Own b (addVirtual a s r vkey user ic ok) := by
+    (hb : BkOf a.h s b) (o : Own b h0 a) : Own b h0 (addVirtual a s r vkey user ic ok) := by
   unfold addVirtual
   cases hx : a.h.sess s with
   | none => exact o
@@ -962,14 +1072,24 @@ theorem addVirtual_own {b : Nat} (a : Acc) (s : Nat) (r vkey user : String) (ic 
         simp only []
         by_cases hok : ok = true
         · simp only [hok, Bool.not_true, Bool.false_eq_true, if_false]
+          have hnew : a.h.sess a.h.nextSid = none := hi.fresh _ (Nat.le_refl _)
+          have hsne : s ≠ a.h.nextSid := by intro e; rw [e, hnew] at hx; cases hx
           have hkp : BkKeep x.backend a.h (virtualTables a.h s x r vkey user ic) := by
-            intro t hbt z hz
-            rw [virtualTables_sess] at hz
-            by_cases e1 : t = a.h.nextSid
-            · simp only [e1, if_true] at hz; cases hz; rfl
-            · by_cases e2 : t = s
-              · subst e2; simp only [e1, if_true, if_false] at hz; cases hz; rfl
-              · simp only [e1, e2, if_false] at hz; exact hbt z hz
+            refine ⟨?_, ?_⟩
+            · intro t hbt z hz
+              rw [virtualTables_sess] at hz
+              by_cases e1 : t = a.h.nextSid
+              · simp only [e1, if_true] at hz; cases hz; rfl
+              · by_cases e2 : t = s
+                · subst e2; simp only [e1, if_true, if_false] at hz; cases hz; rfl
+                · simp only [e1, e2, if_false] at hz; exact hbt z hz
+            · intro t z hz hn
+              rw [virtualTables_sess]
+              by_cases e1 : t = a.h.nextSid
+              · rw [e1, hnew] at hz; cases hz
+              · by_cases e2 : t = s
+                · subst e2; rw [hx] at hz; cases hz; exact absurd rfl hn
+                · simp only [e1, e2, if_false]; exact hz
           refine roomAddSession_own _ r a.h.nextSid .virtual "" (virtual_inv hi hx hk r vkey user ic) ?_ (o.setH _ hkp)
           intro z hz
           have hz' : (virtualTables a.h s x r vkey user ic).sess a.h.nextSid = some z := hz
@@ -992,7 +1112,7 @@ theorem vtableForget_inv {h : Hub} (hi : Inv h) (s : Nat) (vkey : String) :
     · exact f15 p k v' hv'
 
 theorem removeVirtual_own {b : Nat} (a : Acc) (s : Nat) (r vkey : String) (hi : Inv a.h)
-    (hb : BkOf a.h s b) (o : Own b a) : Own b (removeVirtual a s r vkey) := by
+    (hb : BkOf a.h s b) (o : Own b h0 a) : Own b h0 (removeVirtual a s r vkey) := by
   unfold removeVirtual
   cases hx : a.h.sess s with
   | none => exact o
@@ -1021,8 +1141,8 @@ theorem removeVirtual_own {b : Nat} (a : Acc) (s : Nat) (r vkey : String) (hi : 
           · rw [hvp, hx] at hp; cases hp; rw [← hpb]; exact hb x hx
     · simp only [hk, ne_eq, not_false_eq_true, if_true]; exact o
 
-theorem roomInCallUpdate_own {b : Nat} (a : Acc) (room : Option String) (s ic : Nat) (hi : Inv a.h) (o : Own b a) :
-    Own b (roomInCallUpdate a b room s ic) := by
+theorem roomInCallUpdate_own {b : Nat} (a : Acc) (room : Option String) (s ic : Nat) (hi : Inv a.h) (o : Own b h0 a) :
+    Own b h0 (roomInCallUpdate a b room s ic) := by
   unfold roomInCallUpdate
   cases room with
   | none => exact o
@@ -1036,8 +1156,8 @@ theorem roomInCallUpdate_own {b : Nat} (a : Acc) (room : Option String) (s ic : 
       intro l hl
       exact (hi.roomL_tbk (by simpa [hubf] using hl)).of_sess_eq rfl
 
-theorem internalInCall_own {b : Nat} (a : Acc) (s : Nat) (ic : Nat) (hi : Inv a.h) (hb : BkOf a.h s b) (o : Own b a) :
-    Own b (internalInCall a s ic) := by
+theorem internalInCall_own {b : Nat} (a : Acc) (s : Nat) (ic : Nat) (hi : Inv a.h) (hb : BkOf a.h s b) (o : Own b h0 a) :
+    Own b h0 (internalInCall a s ic) := by
   unfold internalInCall
   cases hx : a.h.sess s with
   | none => exact o
@@ -1051,21 +1171,21 @@ theorem internalInCall_own {b : Nat} (a : Acc) (s : Nat) (ic : Nat) (hi : Inv a.
       · exact o
       · have h1 : Inv (setSess a.h s (some { x with inCall := ic })) :=
           hi.setSess_same hx rfl rfl rfl rfl rfl rfl rfl rfl
-        exact roomInCallUpdate_own _ _ _ _ h1 (o.setH _ (BkKeep.setSess hx rfl))
+        exact roomInCallUpdate_own _ _ _ _ h1 (o.setH _ (BkKeep.setSess hx rfl rfl))
 
 /-! ### room API -/
 
 /-- A fold of deliveries (each keeps the core of the hub) keeps `Own`. -/
 theorem foldl_own {b : Nat} {α : Type} (f : Acc → α → Acc) (hc : ∀ a x, CoreEq a.h (f a x).h)
-    (hf : ∀ a x, Inv a.h → Own b a → Own b (f a x)) :
-    ∀ (l : List α) (a : Acc), Inv a.h → Own b a → Own b (l.foldl f a) := by
+    (hf : ∀ a x, Inv a.h → Own b h0 a → Own b h0 (f a x)) :
+    ∀ (l : List α) (a : Acc), Inv a.h → Own b h0 a → Own b h0 (l.foldl f a) := by
   intro l
   induction l with
   | nil => intro a _ o; exact o
   | cons x l ih => intro a hi o; exact ih _ (hi.congr (hc a x)) (hf a x hi o)
 
-theorem pubUsers_own {b : Nat} (a : Acc) (users : List String) (m : Msg) (hi : Inv a.h) (o : Own b a) :
-    Own b (pubUsers a b users m) :=
+theorem pubUsers_own {b : Nat} (a : Acc) (users : List String) (m : Msg) (hi : Inv a.h) (o : Own b h0 a) :
+    Own b h0 (pubUsers a b users m) :=
   foldl_own _ (fun a u => pubUser_core a b u (.msg m)) (fun a u hi o => pubUser_own a u _ hi o) users a hi o
 
 theorem lookupRs_bk {h : Hub} {b : Nat} {rs : String} {s : Nat} (hl : lookupRs h b rs = some s) : BkOf h s b := by
@@ -1085,20 +1205,20 @@ theorem lookupRs_bk {h : Hub} {b : Nat} {rs : String} {s : Nat} (hl : lookupRs h
         intro y hy; rw [h2] at hy; cases hy
         exact Decidable.byContradiction (fun hne => hg (by simpa using hne))
 
-theorem sendToRs_own {b : Nat} (m : AMsg) (a : Acc) (rs : String) (hi : Inv a.h) (o : Own b a) : Own b (sendToRs b m a rs) := by
+theorem sendToRs_own {b : Nat} (m : AMsg) (a : Acc) (rs : String) (hi : Inv a.h) (o : Own b h0 a) : Own b h0 (sendToRs b m a rs) := by
   unfold sendToRs
   split
   · rename_i s hs
     exact procSession_own a s m hi o (lookupRs_bk hs)
   · exact o
 
-theorem apiInvite_own {b : Nat} (a : Acc) (r : String) (us all : List String) (hi : Inv a.h) (o : Own b a) :
-    Own b (apiInvite a b r us all) := by
+theorem apiInvite_own {b : Nat} (a : Acc) (r : String) (us all : List String) (hi : Inv a.h) (o : Own b h0 a) :
+    Own b h0 (apiInvite a b r us all) := by
   unfold apiInvite
   exact pubUsers_own _ _ _ (hi.congr (pubUsers_core _ _ _ _)) (pubUsers_own a us _ hi o)
 
-theorem apiDisinvite_own {b : Nat} (a : Acc) (r : String) (us rss all : List String) (hi : Inv a.h) (o : Own b a) :
-    Own b (apiDisinvite a b r us rss all) := by
+theorem apiDisinvite_own {b : Nat} (a : Acc) (r : String) (us rss all : List String) (hi : Inv a.h) (o : Own b h0 a) :
+    Own b h0 (apiDisinvite a b r us rss all) := by
   unfold apiDisinvite
   have o1 := pubUsers_own a us (.roomlist "disinvite" r) hi o
   have hi1 := hi.congr (pubUsers_core a b us (.roomlist "disinvite" r))
@@ -1107,7 +1227,7 @@ theorem apiDisinvite_own {b : Nat} (a : Acc) (r : String) (us rss all : List Str
   have hi2 := hi1.congr (foldl_core _ (sendToRs_core b (.msg (.roomlist "disinvite" r))) rss _)
   exact pubUsers_own _ _ _ hi2 o2
 
-theorem apiMessage_own {b : Nat} (a : Acc) (r data : String) (hi : Inv a.h) (o : Own b a) : Own b (apiMessage a b r data) := by
+theorem apiMessage_own {b : Nat} (a : Acc) (r data : String) (hi : Inv a.h) (o : Own b h0 a) : Own b h0 (apiMessage a b r data) := by
   unfold apiMessage
   split
   · exact o
@@ -1115,8 +1235,8 @@ theorem apiMessage_own {b : Nat} (a : Acc) (r data : String) (hi : Inv a.h) (o :
     · exact o
     · exact pubRoom_own a r _ hi o
 
-theorem apiSwitchto_own {b : Nat} (a : Acc) (r room : String) (rss : List String) (hi : Inv a.h) (o : Own b a) :
-    Own b (apiSwitchto a b r room rss) := by
+theorem apiSwitchto_own {b : Nat} (a : Acc) (r room : String) (rss : List String) (hi : Inv a.h) (o : Own b h0 a) :
+    Own b h0 (apiSwitchto a b r room rss) := by
   unfold apiSwitchto
   simp only []
   split
@@ -1124,8 +1244,8 @@ theorem apiSwitchto_own {b : Nat} (a : Acc) (r room : String) (rss : List String
   · split
     · exact o
     · -- every looked-up session belongs to `b`; deliveries keep that
-      have gen : ∀ (l : List Nat) (a' : Acc), Inv a'.h → (∀ s, s ∈ l → BkOf a'.h s b) → Own b a' →
-          Own b (l.foldl (fun a s => procSession a s (.msg (.switchto room))) a') := by
+      have gen : ∀ (l : List Nat) (a' : Acc), Inv a'.h → (∀ s, s ∈ l → BkOf a'.h s b) → Own b h0 a' →
+          Own b h0 (l.foldl (fun a s => procSession a s (.msg (.switchto room))) a') := by
         intro l
         induction l with
         | nil => intro a' _ _ o'; exact o'
@@ -1140,8 +1260,8 @@ theorem apiSwitchto_own {b : Nat} (a : Acc) (r room : String) (rss : List String
       obtain ⟨rs, _, hrs⟩ := List.mem_filterMap.mp hs
       exact lookupRs_bk hrs
 
-theorem sendAll_own {b : Nat} (m : Msg) : ∀ (l : List Nat) (a : Acc), Inv a.h → (∀ s, s ∈ l → BkOf a.h s b) → Own b a →
-    Own b (sendAll a l m) := by
+theorem sendAll_own {b : Nat} (m : Msg) : ∀ (l : List Nat) (a : Acc), Inv a.h → (∀ s, s ∈ l → BkOf a.h s b) → Own b h0 a →
+    Own b h0 (sendAll a l m) := by
   intro l
   unfold sendAll
   induction l with
@@ -1153,8 +1273,8 @@ theorem sendAll_own {b : Nat} (m : Msg) : ∀ (l : List Nat) (a : Acc), Inv a.h 
     exact ih _ (hi.congr c) (fun t ht => c.bkOf (hb t (List.mem_cons_of_mem _ ht)))
       (sendTo_own_inv a s m hi (by simp) (hb s List.mem_cons_self) o)
 
-theorem apiIncallAll_own {b : Nat} (a : Acc) (r : String) (ic : Nat) (hi : Inv a.h) (o : Own b a) :
-    Own b (apiIncallAll a b r ic) := by
+theorem apiIncallAll_own {b : Nat} (a : Acc) (r : String) (ic : Nat) (hi : Inv a.h) (o : Own b h0 a) :
+    Own b h0 (apiIncallAll a b r ic) := by
   unfold apiIncallAll
   cases hrm : a.h.rooms b r with
   | none => exact o
@@ -1182,8 +1302,8 @@ theorem apiIncallAll_own {b : Nat} (a : Acc) (r : String) (ic : Nat) (hi : Inv a
         exact hmem s (List.mem_filter.mp hs).1
       · exact o
 
-theorem apiIncall_own {b : Nat} (a : Acc) (r : String) (ch us : List (String × Nat)) (hi : Inv a.h) (o : Own b a) :
-    Own b (apiIncall a b r ch us) := by
+theorem apiIncall_own {b : Nat} (a : Acc) (r : String) (ch us : List (String × Nat)) (hi : Inv a.h) (o : Own b h0 a) :
+    Own b h0 (apiIncall a b r ch us) := by
   unfold apiIncall
   simp only []
   split
@@ -1196,21 +1316,21 @@ theorem apiIncall_own {b : Nat} (a : Acc) (r : String) (ch us : List (String × 
       intro l hl
       exact (hi.roomL_tbk (by simpa [hubf] using hl)).of_sess_eq rfl
 
-theorem sendPerms_own {b : Nat} (a : Acc) (e : Nat × Option (List String)) (hi : Inv a.h) (hb : BkOf a.h e.1 b) (o : Own b a) :
-    Own b (sendPerms a e) := by
+theorem sendPerms_own {b : Nat} (a : Acc) (e : Nat × Option (List String)) (hi : Inv a.h) (hb : BkOf a.h e.1 b) (o : Own b h0 a) :
+    Own b h0 (sendPerms a e) := by
   unfold sendPerms
   split
   · exact procSession_own a e.1 _ hi o hb
   · exact o
 
 theorem apiParticipants_own {b : Nat} (a : Acc) (r : String) (ch : List (String × Option (List String)))
-    (us : List String) (hi : Inv a.h) (o : Own b a) : Own b (apiParticipants a b r ch us) := by
+    (us : List String) (hi : Inv a.h) (o : Own b h0 a) : Own b h0 (apiParticipants a b r ch us) := by
   unfold apiParticipants
   simp only []
   split
   · exact o
-  · have gen : ∀ (l : List (Nat × Option (List String))) (a' : Acc), Inv a'.h → (∀ e, e ∈ l → BkOf a'.h e.1 b) → Own b a' →
-        Own b (l.foldl sendPerms a') := by
+  · have gen : ∀ (l : List (Nat × Option (List String))) (a' : Acc), Inv a'.h → (∀ e, e ∈ l → BkOf a'.h e.1 b) → Own b h0 a' →
+        Own b h0 (l.foldl sendPerms a') := by
       intro l
       induction l with
       | nil => intro a' _ _ o'; exact o'
@@ -1222,7 +1342,7 @@ theorem apiParticipants_own {b : Nat} (a : Acc) (r : String) (ch : List (String 
           (sendPerms_own a' e hi' (hb' e List.mem_cons_self) o')
     have c1 := foldl_core sendPerms sendPerms_core
       (ch.filterMap fun (rs, p) => (lookupRs a.h b rs).map fun s => (s, p)) a
-    have o1 : Own b ((ch.filterMap fun (rs, p) => (lookupRs a.h b rs).map fun s => (s, p)).foldl sendPerms a) := by
+    have o1 : Own b h0 ((ch.filterMap fun (rs, p) => (lookupRs a.h b rs).map fun s => (s, p)).foldl sendPerms a) := by
       refine gen _ a hi ?_ o
       intro e he
       obtain ⟨⟨rs, p⟩, _, hrs⟩ := List.mem_filterMap.mp he
@@ -1253,11 +1373,11 @@ theorem leaveGone_sess (h : Hub) (s : Nat) (x : Sess) (r : String) (t : Nat) :
 /-- One former member of a deleted room: nobody else is told (the room is gone), the member itself gets
 the room message. -/
 theorem deleteLeave_own {b : Nat} (a : Acc) (s : Nat) (l : List Nat) {r : String} (hd : DelState b r (s :: l) a.h)
-    (hbs : BkOf a.h s b) (o : Own b a) : Own b (deleteLeave a s) ∧ BkKeep b a.h (deleteLeave a s).h := by
+    (hbs : BkOf a.h s b) (o : Own b h0 a) : Own b h0 (deleteLeave a s) ∧ BkKeep b a.h (deleteLeave a s).h := by
   obtain ⟨hi, hgone, hQ⟩ := hd
   unfold deleteLeave
   cases hx : a.h.sess s with
-  | none => exact ⟨o, fun t h => h⟩
+  | none => exact ⟨o, BkKeep.refl _⟩
   | some x =>
     simp only []
     rcases hQ s x hx List.mem_cons_self with hr | ⟨hb, hr⟩
@@ -1267,31 +1387,30 @@ theorem deleteLeave_own {b : Nat} (a : Acc) (s : Nat) (l : List Nat) {r : String
       · simp only [hc, if_true]
         have hk : x.kind ≠ .virtual := by
           simp only [ne_eq, Bool.and_eq_true, decide_eq_true_eq] at hc; exact hc.1
-        exact ⟨sendTo_own a s _ o (by rw [target_nonvirtual hx hk]; exact hbs), fun t h => (sendTo_core a s _).bkOf h⟩
-      · simp only [hc]; exact ⟨o, fun t h => h⟩
+        exact ⟨sendTo_own a s _ o (by rw [target_nonvirtual hx hk]; exact hbs),
+          sendTo_keep a s _ (by rw [target_nonvirtual hx hk]; exact hbs)⟩
+      · simp only [hc]; exact ⟨o, BkKeep.refl _⟩
     · have hrm : a.h.rooms x.backend r = none := by rw [hb]; exact hgone
       rw [leaveRoom_gone_acc a s hx hr hrm]
       have hkp : BkKeep b a.h (leaveGone a.h s x r) := by
-        intro t hbt z hz
-        rw [leaveGone_sess] at hz
-        by_cases e : t = s
-        · simp only [e, if_true] at hz; cases hz; exact hb
-        · simp only [e, if_false] at hz; exact hbt z hz
-      have o1 : Own b { a with h := leaveGone a.h s x r } := o.setH _ hkp
+        refine BkKeep.of_single s ?_ hbs ?_
+        · intro t e; rw [leaveGone_sess]; simp [e]
+        · intro z hz; rw [leaveGone_sess] at hz; simp at hz; subst hz; exact hb
+      have o1 : Own b h0 { a with h := leaveGone a.h s x r } := o.setH _ hkp
       by_cases hc : (x.kind ≠ .virtual && x.conn.isSome) = true
       · simp only [hc, if_true]
         have hk : x.kind ≠ .virtual := by
           simp only [ne_eq, Bool.and_eq_true, decide_eq_true_eq] at hc; exact hc.1
         have hs' : (leaveGone a.h s x r).sess s = some { x with room := none, roomSess := "", seenJoin := [] } := by
           rw [leaveGone_sess]; simp
-        refine ⟨sendTo_own _ s _ o1 ?_, fun t h => (sendTo_core _ s _).bkOf (hkp t h)⟩
-        show BkOf (leaveGone a.h s x r) (target (leaveGone a.h s x r) s) b
-        rw [target_nonvirtual hs' hk]
-        intro z hz; rw [hs'] at hz; cases hz; exact hb
+        have htb : BkOf (leaveGone a.h s x r) (target (leaveGone a.h s x r) s) b := by
+          rw [target_nonvirtual hs' hk]
+          intro z hz; rw [hs'] at hz; cases hz; exact hb
+        exact ⟨sendTo_own _ s _ o1 htb, hkp.trans (sendTo_keep { a with h := leaveGone a.h s x r } s _ htb)⟩
       · simp only [hc]; exact ⟨o1, hkp⟩
 
 theorem foldl_deleteLeave_own {b : Nat} {r : String} : ∀ (l : List Nat) (a : Acc), l.Nodup → DelState b r l a.h →
-    (∀ t, t ∈ l → BkOf a.h t b) → Own b a → Own b (l.foldl deleteLeave a) := by
+    (∀ t, t ∈ l → BkOf a.h t b) → Own b h0 a → Own b h0 (l.foldl deleteLeave a) := by
   intro l
   induction l with
   | nil => intro a _ _ _ o; exact o
@@ -1300,10 +1419,10 @@ theorem foldl_deleteLeave_own {b : Nat} {r : String} : ∀ (l : List Nat) (a : A
     simp only [List.foldl_cons]
     obtain ⟨o1, hk1⟩ := deleteLeave_own a s l hd (hb s List.mem_cons_self) o
     exact ih _ (List.nodup_cons.mp hnd).2 (deleteLeave_step a s l hnd hd)
-      (fun t ht => hk1 t (hb t (List.mem_cons_of_mem _ ht))) o1
+      (fun t ht => hk1.keep t (hb t (List.mem_cons_of_mem _ ht))) o1
 
-theorem notifyRoomDeleted_own {b : Nat} (a : Acc) (s : Nat) (hi : Inv a.h) (hb : BkOf a.h s b) (o : Own b a) :
-    Own b (notifyRoomDeleted a s) := by
+theorem notifyRoomDeleted_own {b : Nat} (a : Acc) (s : Nat) (hi : Inv a.h) (hb : BkOf a.h s b) (o : Own b h0 a) :
+    Own b h0 (notifyRoomDeleted a s) := by
   unfold notifyRoomDeleted
   split
   · split
@@ -1311,7 +1430,7 @@ theorem notifyRoomDeleted_own {b : Nat} (a : Acc) (s : Nat) (hi : Inv a.h) (hb :
     · exact o
   · exact o
 
-theorem apiDelete_own {b : Nat} (a : Acc) (r : String) (hi : Inv a.h) (o : Own b a) : Own b (apiDelete a b r) := by
+theorem apiDelete_own {b : Nat} (a : Acc) (r : String) (hi : Inv a.h) (o : Own b h0 a) : Own b h0 (apiDelete a b r) := by
   unfold apiDelete
   cases hrm : a.h.rooms b r with
   | none => exact o
@@ -1324,9 +1443,9 @@ theorem apiDelete_own {b : Nat} (a : Acc) (r : String) (hi : Inv a.h) (o : Own b
     have ncore : ∀ a s, CoreEq a.h (notifyRoomDeleted a s).h := by
       intro a s; unfold notifyRoomDeleted; core_auto
     have c1 : CoreEq a.h (rm.members.foldl notifyRoomDeleted a).h := foldl_core _ ncore _ _
-    have o1 : Own b (rm.members.foldl notifyRoomDeleted a) := by
-      have gen : ∀ (l : List Nat) (a' : Acc), Inv a'.h → (∀ s, s ∈ l → BkOf a'.h s b) → Own b a' →
-          Own b (l.foldl notifyRoomDeleted a') := by
+    have o1 : Own b h0 (rm.members.foldl notifyRoomDeleted a) := by
+      have gen : ∀ (l : List Nat) (a' : Acc), Inv a'.h → (∀ s, s ∈ l → BkOf a'.h s b) → Own b h0 a' →
+          Own b h0 (l.foldl notifyRoomDeleted a') := by
         intro l
         induction l with
         | nil => intro a' _ _ o'; exact o'
@@ -1352,8 +1471,8 @@ theorem apiDelete_own {b : Nat} (a : Acc) (r : String) (hi : Inv a.h) (o : Own b
     exact foldl_deleteLeave_own rm.members _ (hi1.nodup b r rm hrm1) hd
       (fun t ht => hmem1 t ht) (o1.setH _ (BkKeep.of_sess_eq rfl))
 
-theorem processApi_own {b : Nat} (a : Acc) (r : String) (req : Api) (hi : Inv a.h) (o : Own b a) :
-    Own b (processApi a b r req) := by
+theorem processApi_own {b : Nat} (a : Acc) (r : String) (req : Api) (hi : Inv a.h) (o : Own b h0 a) :
+    Own b h0 (processApi a b r req) := by
   cases req with
   | invite us all => exact apiInvite_own a r us all hi o
   | disinvite us rss all => exact apiDisinvite_own a r us rss all hi o
@@ -1371,8 +1490,8 @@ theorem bkOf_of_map {h : Hub} {s b : Nat} (ho : (h.sess s).map (·.backend) = so
 
 /-- Whatever an operation that acts for backend `b` writes — before the follow-up closes — goes to sessions
 of `b`, and the sessions it marks for closing belong to `b`. -/
-theorem stepAcc_own {b : Nat} (a : Acc) (op : Op) (hi : Inv a.h) (ho : originOf a.h op = some b) (o : Own b a) :
-    Own b (stepAcc a op) := by
+theorem stepAcc_own {b : Nat} (a : Acc) (op : Op) (hi : Inv a.h) (ho : originOf a.h op = some b) (o : Own b h0 a) :
+    Own b h0 (stepAcc a op) := by
   cases op with
   | connect c => simp [originOf] at ho
   | hello c b' kind user d i =>
@@ -1380,7 +1499,7 @@ theorem stepAcc_own {b : Nat} (a : Acc) (op : Op) (hi : Inv a.h) (ho : originOf 
     simp only [stepAcc]
     split
     · exact o
-    · exact processHello_own a c kind user d i o
+    · exact processHello_own a c kind user d i hi o
   | resume c os =>
     simp only [stepAcc]
     cases os with
@@ -1388,7 +1507,12 @@ theorem stepAcc_own {b : Nat} (a : Acc) (op : Op) (hi : Inv a.h) (ho : originOf 
     | some s =>
       simp only [originOf] at ho
       exact processResume_own a c (some s) hi (by intro t ht; cases ht; exact bkOf_of_map ho) o
-  | disconnect c => simp only [stepAcc]; exact processDisconnect_own a c o
+  | disconnect c =>
+    simp only [stepAcc, originOf] at ho ⊢
+    refine processDisconnect_own a c ?_ o
+    intro s hs
+    rw [hs] at ho
+    exact bkOf_of_map (by simpa using ho)
   | bye c =>
     simp only [stepAcc, originOf] at ho ⊢
     refine processBye_own a c hi ?_ o
@@ -1429,12 +1553,16 @@ theorem stepAcc_own {b : Nat} (a : Acc) (op : Op) (hi : Inv a.h) (ho : originOf 
     exact processApi_own a r req hi o
   | setLimit b' l => simp [originOf] at ho
 
-/-- The same for a whole step, the closing of the sessions it marked included. -/
+/-- The same for a whole step, the closing of the sessions it marked included: everything written goes to
+sessions of `b`, and the record of every session of another backend (room, permissions, queue, connection, …)
+is untouched. -/
 theorem step_own {b : Nat} (h : Hub) (op : Op) (hi : Inv h) (ho : originOf h op = some b) :
-    ∀ o, o ∈ (step h op).2 → ∀ b', o.bk = some b' → b' = b := by
+    (∀ o, o ∈ (step h op).2 → ∀ b', o.bk = some b' → b' = b) ∧
+    (∀ t x, h.sess t = some x → x.backend ≠ b → (step h op).1.sess t = some x) := by
   unfold step
-  have o0 : Own b ({ h := h } : Acc) := ⟨fun o ho' => (by cases ho'), fun s hs => (by cases hs)⟩
+  have o0 : Own b h ({ h := h } : Acc) := ⟨fun o ho' => (by cases ho'), fun s hs => (by cases hs), fun t x hx _ => hx⟩
   have o1 := stepAcc_own { h := h } op hi ho o0
-  exact (flushCloses_own _ (stepAcc_inv { h := h } op hi) o1).outs
+  have o2 := flushCloses_own _ (stepAcc_inv { h := h } op hi) o1
+  exact ⟨o2.outs, o2.frame⟩
 
 end SigModel.Hub
